@@ -373,6 +373,8 @@ func main() {
 		shrinkMode(a)
 	case "replay":
 		replayMode(a)
+	case "witness":
+		witnessMode(a)
 	default:
 		fmt.Fprintln(os.Stderr, "unknown mode", mode)
 		os.Exit(2)
@@ -833,6 +835,41 @@ func replayMode(a map[string]string) {
 				fmt.Fprintln(f, r)
 			}
 			f.Close()
+		}
+	}
+}
+
+// witness: the two renderer-level witnesses of coq/C10/Properties.v (errors_reported_refuted,
+// null_data_pending_refuted) through the real Resolver; the lines go through the same driver.
+func witnessMode(a map[string]string) {
+	out := common.NewOut(a["out"])
+	defer out.Close()
+	str := func(name string, nullable bool) *gplan.Node {
+		return &gplan.Node{Kind: gplan.KStr, Path: []string{name}, Nullable: nullable}
+	}
+	// { a { ... @defer { x } } }   x: String!
+	fx := &gplan.Field{Name: "x", Value: str("x", false)}
+	p2 := &c10lab.DPlan{
+		Root: &gplan.Node{Kind: gplan.KObj, TypeName: "Query", Fields: []*gplan.Field{
+			{Name: "a", Value: &gplan.Node{Kind: gplan.KObj, Path: []string{"a"}, Nullable: true, TypeName: "A", Fields: []*gplan.Field{fx}}}}},
+		Defer: map[*gplan.Field]int{fx: 1}, Descs: []*c10lab.Desc{{ID: 1, Path: []string{"a"}}}, NoFetch: map[int]bool{}, Valid: true,
+	}
+	// { a ... @defer { b } }   a: String!
+	fb := &gplan.Field{Name: "b", Value: str("b", true)}
+	p3 := &c10lab.DPlan{
+		Root: &gplan.Node{Kind: gplan.KObj, TypeName: "Query", Fields: []*gplan.Field{{Name: "a", Value: str("a", false)}, fb}},
+		Defer: map[*gplan.Field]int{fb: 1}, Descs: []*c10lab.Desc{{ID: 1}}, NoFetch: map[int]bool{}, Valid: true,
+	}
+	for _, w := range []struct {
+		p    *c10lab.DPlan
+		data string
+	}{{p2, `{"a":{"x":null}}`}, {p3, `{"a":null,"b":"x"}`}} {
+		run := w.p.Execute(w.data, nil, func(int, []int) int { return 0 })
+		for i, f := range run.Rec.Frames {
+			fmt.Fprintf(os.Stderr, "witness frame %d: %s\n", i, f)
+		}
+		if line := corrLine(w.p, w.data, "full", nil, run); line != "" {
+			out.Line(line)
 		}
 	}
 }
